@@ -134,6 +134,8 @@ func Evaluate(in Input, data []byte, r Resp) *facet.Failure {
 			f := base(facet.Failf("nonconforming", "%s returned a value of type %s for requested type %s (input %s...)", in.Decoder, r.VTypeStr, in.Type, hexHead)).With("vtype", r.VTypeStr)
 			if r.VType != nil && emptyStructMismatchOnly(*r.VType, in.Type) {
 				f = f.With("shape", "empty-struct-for-nonempty")
+			} else if r.VType != nil && missingAttrsOnly(*r.VType, in.Type) {
+				f = f.With("shape", "object-missing-attributes")
 			}
 			return f
 		}
@@ -195,6 +197,59 @@ func emptyStructMismatchOnly(got, want spec.T) bool {
 				if a[i].Name != b[i].Name || !rec(a[i].T, b[i].T) {
 					return false
 				}
+			}
+			return true
+		case spec.KCapsule:
+			return g.Cap == w.Cap
+		}
+		return true
+	}
+	return rec(got, want) && found
+}
+
+// missingAttrsOnly reports whether got fails to conform to want only because,
+// at one or more positions, got is an object type whose attributes are a
+// non-empty strict subset of the attributes of the object type want has there.
+func missingAttrsOnly(got, want spec.T) bool {
+	found := false
+	var rec func(g, w spec.T) bool
+	rec = func(g, w spec.T) bool {
+		if w.K == spec.KDynamic {
+			return true
+		}
+		if g.K != w.K {
+			return false
+		}
+		switch g.K {
+		case spec.KList, spec.KSet, spec.KMap:
+			return rec(*g.E, *w.E)
+		case spec.KTuple:
+			if len(g.Elems) != len(w.Elems) {
+				return false
+			}
+			for i := range g.Elems {
+				if !rec(g.Elems[i], w.Elems[i]) {
+					return false
+				}
+			}
+			return true
+		case spec.KObject:
+			wa := map[string]spec.T{}
+			for _, a := range w.SortedAttrs() {
+				wa[a.Name] = a.T
+			}
+			ga := g.SortedAttrs()
+			if len(ga) == 0 || len(ga) > len(wa) {
+				return false
+			}
+			for _, a := range ga {
+				wt, ok := wa[a.Name]
+				if !ok || !rec(a.T, wt) {
+					return false
+				}
+			}
+			if len(ga) < len(wa) {
+				found = true
 			}
 			return true
 		case spec.KCapsule:
